@@ -21,12 +21,119 @@ class Undecided(Exception):
     pass
 
 
-def ev(t, env, lbl):
+class NeedChoice(Exception):
+    def __init__(self, key, n):
+        self.key, self.n = key, n
+
+
+class Ctx:
+    """evaluation context for definitions that are not straight-line: which function's terms are being read (for the
+    element stores of vec![..]), the arm chosen at each test the evaluator cannot decide (enumerated by the caller),
+    the polarity assumed for a literal operand inside the arm of `match a { Var(l, true) .. Var(l, false) .. }`"""
+    def __init__(self, prog, fn, choices, depth=0, frame=""):
+        self.prog, self.fn, self.choices, self.depth, self.frame = prog, fn, choices, depth, frame
+        self.pol = {}
+
+    def choose(self, cond, n):
+        key = (self.frame, show(cond) if isinstance(cond, tuple) and cond and cond[0] != 'phi' else repr(cond))
+        if key not in self.choices:
+            raise NeedChoice(key, n)
+        return self.choices[key]
+
+
+def _pair(v):
+    if isinstance(v, tuple) and len(v) == 2 and isinstance(v[0], bool) and isinstance(v[1], bool):
+        return v
+    raise Undecided("not a pointer value: %r" % (v,))
+
+
+def ev(t, env, lbl, ctx=None):
     """value = (v1, v0): the Boolean value when the distinguished variable is 1 / 0"""
+    return _pair(_ev(t, env, lbl, ctx))
+
+
+def _bool_label(lab):
+    if lab in ("0", "1"):
+        return lab == "1"
+    if isinstance(lab, tuple) and lab and lab[0] == "not" and len(lab[1]) == 1 and lab[1][0] in ("0", "1"):
+        return lab[1][0] == "0"
+    return None
+
+
+def _ev(t, env, lbl, ctx=None):
     t = strip(t)
+    while isinstance(t, tuple) and t and t[0] in ("deref", "ref") and ctx is not None:
+        t = strip(t[1])
     if not isinstance(t, tuple):
         raise Undecided("non-term")
     k = t[0]
+    if ctx is not None:
+        if k in ("gamma", "phi"):
+            arms = t[2]
+            cond = strip(t[1]) if k == "gamma" else ("phi", t[1])
+            i = ctx.choose(cond, len(arms))
+            lab, v = arms[i]
+            # match a { Var(l, true) => .., Var(l, false) => .. }: inside the arm the literal's polarity is known
+            if k == "gamma" and isinstance(cond, tuple) and cond[0] == "field" and cond[2] == "1" and isinstance(cond[1], tuple) and \
+                    cond[1][0] == "as" and cond[1][2] == "Var" and _bool_label(lab) is not None:
+                old = dict(ctx.pol)
+                ctx.pol[repr(strip(cond[1][1]))] = _bool_label(lab)
+                try:
+                    return _ev(v, env, lbl, ctx)
+                finally:
+                    ctx.pol = old
+            return _ev(v, env, lbl, ctx)
+        if k == "agg" and t[1] == "tuple":
+            return ("tuple", tuple(_ev(x, env, lbl, ctx) for x in t[4]))
+        if k == "field" and isinstance(t[1], tuple) and t[1] and t[1][0] == "as" and t[1][2] == "Var" and t[2] == "0":
+            x = strip(t[1][1])
+            if repr(x) not in ctx.pol:
+                raise Undecided("label of a literal operand whose polarity is not known here")
+            v = _pair(_ev(x, env, lbl, ctx))
+            return v if ctx.pol[repr(x)] else (not v[0], not v[1])
+        if k == "field" and str(t[2]).isdigit():
+            v = _ev(t[1], env, lbl, ctx)
+            if isinstance(v, tuple) and v and v[0] == "tuple" and int(t[2]) < len(v[1]):
+                return v[1][int(t[2])]
+            raise Undecided("projection of %s" % show(t)[:60])
+        if k == "call":
+            nm, a, key = t[1].name, t[2], t[1].key()
+            if nm == "new" and "BinarySDD" in key and len(a) == 4:
+                L, lo, hi = _pair(_ev(a[0], env, lbl, ctx)), _pair(_ev(a[1], env, lbl, ctx)), _pair(_ev(a[2], env, lbl, ctx))
+                return (hi[0] if L[0] else lo[0], hi[1] if L[1] else lo[1])
+            if nm == "new" and "SddAnd" in key and len(a) == 2:
+                p, s_ = _pair(_ev(a[0], env, lbl, ctx)), _pair(_ev(a[1], env, lbl, ctx))
+                return (p[0] and s_[0], p[1] and s_[1])
+            if nm == "unique_bdd" and len(a) == 2:
+                return _ev(a[1], env, lbl, ctx)
+            if nm in ("unique_or", "canonicalize") and len(a) == 3:
+                # the element list: vec![e1, e2, ..] is an array stored into a fresh box
+                elems = None
+                anchors = [x for x in mir.subterms(a[1]) if mir.is_call(x, "new_uninit")]
+                for (_, pt, val, _) in ctx.fn.terms.stores:
+                    v_ = strip(val)
+                    if anchors and any(x in anchors for x in mir.subterms(pt)) and v_[0] == "agg" and v_[1] == "array":
+                        elems = v_[4]
+                if elems is None:
+                    raise Undecided("element list of %s is not a literal vec![..]" % nm)
+                vs = [_pair(_ev(e, env, lbl, ctx)) for e in elems]
+                return (any(v[0] for v in vs), any(v[1] for v in vs))
+            c = t[1]
+            if nm not in ("and", "or", "iff", "xor", "ite", "ite_helper", "neg", "negate", "condition", "cond_helper", "exists", "var",
+                          "true_ptr", "false_ptr") and (c.local or getattr(c, "res_local", False)) and ctx.depth < 3:
+                hs = [h for h in ctx.prog.resolve(c) if "{closure" not in h.npath and h.blocks and h is not ctx.fn]
+                if len(hs) == 1 and hs[0].argc == len(a) and hs[0].terms.ret is not None and len(hs[0].blocks) <= 60:
+                    h = hs[0]
+                    henv = {}
+                    for i, x in enumerate(a):
+                        try:
+                            henv[i + 1] = _ev(x, env, lbl, ctx)
+                        except Undecided:
+                            pass
+                    sub = Ctx(ctx.prog, h, ctx.choices, ctx.depth + 1, ctx.frame + "/" + h.npath.split("::")[-1])
+                    return _ev(h.terms.ret, henv, None, sub)
+    if k == "param" and ctx is not None and t[1] in env:
+        return env[t[1]]
     if k == "param":
         if t[1] in env:
             return env[t[1]]
@@ -41,20 +148,20 @@ def ev(t, env, lbl):
             b = nm == "true_ptr"
             return (b, b)
         if nm in ("neg", "negate"):
-            x = ev(a[-1], env, lbl)
+            x = ev(a[-1], env, lbl, ctx)
             return (not x[0], not x[1])
         if nm in ("and", "or", "iff", "xor") and len(a) >= 2:
-            x, y = ev(a[-2], env, lbl), ev(a[-1], env, lbl)
+            x, y = ev(a[-2], env, lbl, ctx), ev(a[-1], env, lbl, ctx)
             f = {"and": lambda p, q: p and q, "or": lambda p, q: p or q,
                  "iff": lambda p, q: p == q, "xor": lambda p, q: p != q}[nm]
             return (f(x[0], y[0]), f(x[1], y[1]))
         if nm in ("ite", "ite_helper") and len(a) >= 3:
-            c, x, y = ev(a[-3], env, lbl), ev(a[-2], env, lbl), ev(a[-1], env, lbl)
+            c, x, y = ev(a[-3], env, lbl, ctx), ev(a[-2], env, lbl, ctx), ev(a[-1], env, lbl, ctx)
             return (x[0] if c[0] else y[0], x[1] if c[1] else y[1])
         if nm in ("condition", "cond_helper") and len(a) >= 3:
             if lbl is None or a[-2] != lbl:
                 raise Undecided("condition on a label other than the operator's label parameter")
-            x = ev(a[-3], env, lbl)
+            x = ev(a[-3], env, lbl, ctx)
             b = a[-1]
             if not (isinstance(b, tuple) and b[0] == "const"):
                 raise Undecided("condition value is not a constant")
@@ -63,7 +170,7 @@ def ev(t, env, lbl):
         if nm == "exists" and len(a) >= 2:
             if lbl is None or a[-1] != lbl:
                 raise Undecided("exists on a label other than the operator's label parameter")
-            x = ev(a[-2], env, lbl)
+            x = ev(a[-2], env, lbl, ctx)
             v = x[0] or x[1]
             return (v, v)
         if nm == "var" and len(a) >= 2:
@@ -98,54 +205,117 @@ def leaves(t):
     return [t]
 
 
-def check_def(fn, name):
+def _cases(name):
+    """(env, label parameter, wanted value, description) for every valuation of the operator's operands"""
+    if name in SPECS:
+        pos, _, tf = SPECS[name]
+        for vals in itertools.product([False, True], repeat=len(pos)):
+            w = tf(*vals)
+            yield {p: (v, v) for p, v in zip(pos, vals)}, None, (w, w), "%s" % dict(zip(["f", "g", "h"], vals))
+    elif name == "exists":
+        for f1, f0 in itertools.product([False, True], repeat=2):
+            w = f1 or f0
+            yield {2: (f1, f0)}, ("param", 3), (w, w), "cofactors (f|v=1, f|v=0) = (%s, %s)" % (f1, f0)
+    elif name == "compose":
+        # documented definition: ∃v.(g ⇔ v) ∧ f, with g allowed to mention v itself
+        for f1, f0, g1, g0 in itertools.product([False, True], repeat=4):
+            w = (g1 and f1) or ((not g0) and f0)
+            yield {2: (f1, f0), 4: (g1, g0)}, ("param", 3), (w, w), \
+                "cofactors (f|v=1, f|v=0, g|v=1, g|v=0) = (%s, %s, %s, %s)" % (f1, f0, g1, g0)
+    else:
+        raise Undecided("no truth table for %s" % name)
+
+
+def _alternatives(te):
+    """return alternatives with the block they come from and the tests of the choices they sit under"""
+    out = []
+
+    def collect(t, pb, facts):
+        t_ = strip(t)
+        if isinstance(t_, tuple) and t_ and t_[0] == "phi":
+            for p_, v in t_[2]:
+                collect(v, p_, facts)
+        elif isinstance(t_, tuple) and t_ and t_[0] == "gamma":
+            for lab, v in t_[2]:
+                b = _bool_label(lab)
+                collect(v, pb, facts + ([(strip(t_[1]), b)] if b is not None else []))
+        else:
+            out.append((pb, t, facts))
+    for rb, t in te.ret_by_block.items():
+        collect(t, rb, [])
+    return out
+
+
+def _consistent(facts, env, lbl, ctx):
+    """can this valuation reach the alternative?  Only tests with a pointwise meaning are used: is_true(x) ⇒ x = ⊤,
+    is_false(x) ⇒ x = ⊥, eq(x, y) ⇒ x = y; a failed test says nothing about the value at one point."""
+    for c, truth in facts:
+        if not truth:
+            continue
+        try:
+            if mir.is_call(c, "is_true") and ev(c[2][-1], env, lbl, ctx) != (True, True):
+                return False
+            if mir.is_call(c, "is_false") and ev(c[2][-1], env, lbl, ctx) != (False, False):
+                return False
+            if (mir.is_call(c, "eq") or mir.is_call(c, "sdd_eq")) and len(c[2]) >= 2 and \
+                    ev(c[2][-2], env, lbl, ctx) != ev(c[2][-1], env, lbl, ctx):
+                return False
+        except (Undecided, NeedChoice):
+            pass
+    return True
+
+
+def _runs(thunk, limit=128):
+    """evaluate under every combination of the choices the evaluation asks for"""
+    stack, n = [{}], 0
+    while stack:
+        ch = stack.pop()
+        n += 1
+        if n > limit:
+            raise Undecided("too many undetermined tests")
+        try:
+            yield ch, thunk(ch)
+        except NeedChoice as e:
+            for i in range(e.n):
+                d_ = dict(ch)
+                d_[e.key] = i
+                stack.append(d_)
+
+
+def check_def(fn, name, prog=None):
     te = fn.terms
     key = "%s:truth-table" % fn.npath
-    alts = leaves(te.ret)
+    alts = _alternatives(te)
     decided = 0
     notes = []
-    for alt in alts:
+    for pb, alt, gfacts in alts:
         try:
-            if name in SPECS:
-                pos, _, tf = SPECS[name]
-                for vals in itertools.product([False, True], repeat=len(pos)):
-                    env = {p: (v, v) for p, v in zip(pos, vals)}
-                    got = ev(alt, env, None)
-                    want = tf(*vals)
-                    if got[0] != want:
+            ways = te.entry_guards(pb) if isinstance(pb, int) and pb >= 0 else [[]]
+            ways = [[(strip(c), v != "0") for c, v, _, d in way] + gfacts for way in (ways or [[]])]
+            ways = [w for w in ways if not any((c_, not tr_) in w for c_, tr_ in w)]
+            for env, lbl, want, descr in _cases(name):
+                ctx0 = Ctx(prog, fn, {}) if prog is not None else None
+                if not any(_consistent(w, env, lbl, ctx0) for w in ways):
+                    continue
+                if prog is None:
+                    results = [({}, ev(alt, env, lbl))]
+                else:
+                    results = list(_runs(lambda ch: ev(alt, env, lbl, Ctx(prog, fn, ch))))
+                for ch, got in results:
+                    if got != want:
                         return inst("DT", key, VIOLATION, fn, None,
-                                    "`%s` is defined as %s, which evaluates to %s for %s; %s requires %s"
-                                    % (name, show(alt), got[0],
-                                       dict(zip(["f", "g", "h"], vals)), name, want))
-            elif name == "exists":
-                lbl = ("param", 3)
-                for f1, f0 in itertools.product([False, True], repeat=2):
-                    got = ev(alt, {2: (f1, f0)}, lbl)
-                    want = f1 or f0
-                    if got != (want, want):
-                        return inst("DT", key, VIOLATION, fn, None,
-                                    "`exists` is defined as %s: for cofactors (f|v=1, f|v=0) = (%s, %s) it gives %s, "
-                                    "∃v.f is %s" % (show(alt), f1, f0, got, want))
-            elif name == "compose":
-                lbl = ("param", 3)
-                # documented definition: ∃v.(g ⇔ v) ∧ f, with g allowed to mention v itself
-                for f1, f0, g1, g0 in itertools.product([False, True], repeat=4):
-                    got = ev(alt, {2: (f1, f0), 4: (g1, g0)}, lbl)
-                    want = (g1 and f1) or ((not g0) and f0)
-                    if got != (want, want):
-                        return inst("DT", key, VIOLATION, fn, None,
-                                    "`compose` is defined as %s: for cofactors (f|v=1, f|v=0, g|v=1, g|v=0) = (%s, %s, %s, %s) "
-                                    "it gives %s, ∃v.(g⇔v)∧f is %s" % (show(alt), f1, f0, g1, g0, got, want))
-            else:
-                raise Undecided("no truth table for %s" % name)
+                                    "`%s` returns %s, which for %s%s denotes %s; %s requires %s"
+                                    % (name, show(alt)[:120], descr,
+                                       (" (taking %s)" % ", ".join("arm %d of `%s`" % (v_, k_[1][:50]) for k_, v_ in sorted(ch.items()))) if ch else "",
+                                       got[0] if got[0] == got[1] else got, name, want[0]))
             decided += 1
         except Undecided as e:
             notes.append(str(e))
     if decided == 0:
         return inst("DT", key, UNDECIDED, fn, None, "not a closed term over the known primitives: %s" % "; ".join(notes)[:300])
     return inst("DT", key, OK, fn, None,
-                "%s ≡ %s on all valuations (%d of %d return alternatives are closed terms)"
-                % (name, show([a for a in alts][-1])[:160], decided, len(alts)))
+                "%s ≡ %s on all valuations its guards admit (%d of %d return alternatives are closed terms)"
+                % (name, show([a for _, a, _ in alts][-1])[:160], decided, len(alts)))
 
 
 def run(prog):
@@ -164,18 +334,18 @@ def run(prog):
                 continue  # BDD ite is the primitive (ite_helper), C01 says what is not decided
             if name == "and" and "SddPtr" in ptr:
                 continue  # SDD and is the primitive apply
-            out.append(check_def(fn, name))
+            out.append(check_def(fn, name, prog))
     # trait defaults
     for name in ("or", "compose"):
         fn = prog.find1(name=name, in_trait=BB, unit="rsdd-lib")
-        out.append(check_def(fn, name))
+        out.append(check_def(fn, name, prog))
     # overrides of the provided methods by an implementor must satisfy the same definition
     done = {r["fn"] for r in out}
     for name in ("or", "compose"):
         for fn in prog.find(name=name, impl_trait=BB, unit="rsdd-lib"):
             if fn.npath in done or (name == "or" and not te_is_derived(fn)):
                 continue
-            out.append(check_def(fn, name))
+            out.append(check_def(fn, name, prog))
     return out
 
 
